@@ -35,7 +35,7 @@ theorem findX_F0M0_realizeX (rev : Bool) (X0 : Xf K) (h : IsRot X0.R) :
     obtain ⟨R, p⟩ := X0
     simp only [Xf.inv, M33.tr_tr, Xf.mk.injEq, true_and]
     have e : R.mulVec (V3.neg (R.tr.mulVec p)) = V3.neg (R.mulVec (R.tr.mulVec p)) := by mob_unfold; ring_all
-    rw [e, h.mulVec_mulVec_tr]; mob_unfold; ring_all
+    rw [e, h.mulVec_mulVec_tr]; obtain ⟨x, y, z⟩ := p; mob_unfold; ring_all
 
 /-! ## Documented elementary rotations are proper rotations -/
 
@@ -172,14 +172,18 @@ def docRJet (c0 c1 c2 s0 s1 s2 : K) (qd : V3 K) : M33 (Jet K) :=
 
 /-- core Euler-angle kinematics: with angle rates `qd` the documented rotation turns with
 `ω = NInv_P(q)·qd` (= `Σ qdᵢ · Hwᵢ`) -/
-theorem docR_jet {c0 c1 c2 s0 s1 s2 : K} (h0 : Trig c0 s0) (h1 : Trig c1 s1) (qd : V3 K) :
-    (docRJet c0 c1 c2 s0 s1 s2 qd).eps
-      = M33.mul (M33.crossMat (bodyXYZ_NInv_P c0 s0 c1 s1 qd)) (Gimbal.docR c0 c1 c2 s0 s1 s2) := by
-  have e0 := h0.sq; have e1 := h1.sq
-  obtain ⟨a, b, d⟩ := qd
-  simp only [docRJet, Gimbal.docR, rotAxis, bodyXYZ_NInv_P]; mob_unfold
-  repeat' apply And.intro
-  all_goals trig_ring [e0, e1]
+theorem docR_turns {c0 c1 c2 s0 s1 s2 : K} (h0 : Trig c0 s0) (h1 : Trig c1 s1) (qd : V3 K) :
+    Turns (docRJet c0 c1 c2 s0 s1 s2 qd) (bodyXYZ_NInv_P c0 s0 c1 s1 qd) := by
+  have t01 := (rotAxis_ex_turns c0 s0 qd.x).mul (rotAxis_ey_turns c1 s1 qd.y) (by rw [rotAxis_ex_re]; exact rotAxis_ex_isRot h0)
+  have t012 := t01.mul (rotAxis_ez_turns c2 s2 qd.z)
+    (by rw [M33.mul_re, rotAxis_ex_re, rotAxis_ey_re]; exact (rotAxis_ex_isRot h0).mul (rotAxis_ey_isRot h1))
+  have ew : V3.add (V3.add (V3.smul qd.x V3.ex) ((rotAxis V3.ex (Jet.cosL c0 s0 qd.x) (Jet.sinL c0 s0 qd.x)).re.mulVec (V3.smul qd.y V3.ey)))
+        ((M33.mul (rotAxis V3.ex (Jet.cosL c0 s0 qd.x) (Jet.sinL c0 s0 qd.x)) (rotAxis V3.ey (Jet.cosL c1 s1 qd.y) (Jet.sinL c1 s1 qd.y))).re.mulVec
+          (V3.smul qd.z V3.ez)) = bodyXYZ_NInv_P c0 s0 c1 s1 qd := by
+    rw [M33.mul_re, rotAxis_ex_re, rotAxis_ey_re, rotAxis_ex, rotAxis_ey]
+    simp only [rotX, rotY, bodyXYZ_NInv_P]; mob_unfold; ring_all
+  rw [ew] at t012
+  exact t012
 theorem docRJet_re (c0 c1 c2 s0 s1 s2 : K) (qd : V3 K) :
     (docRJet c0 c1 c2 s0 s1 s2 qd).re = Gimbal.docR c0 c1 c2 s0 s1 s2 := by
   simp only [docRJet, Gimbal.docR, rotAxis]; mob_unfold
@@ -193,7 +197,7 @@ theorem Gimbal.speeds_meaning {c0 c1 c2 s0 s1 s2 : K} (h0 : Trig c0 s0) (h1 : Tr
   refine ⟨?_, hv⟩
   rw [hv]
   refine ⟨?_, ?_⟩
-  · simp only [docR_jet h0 h1, docRJet_re]
+  · have t := docR_turns (c2 := c2) (s2 := s2) h0 h1 u; unfold Turns at t; simp only [t, docRJet_re]
   · mob_unfold
 theorem Gimbal.fitU_roundtrip {c0 c1 s0 s1 ooc1 : K} (h0 : Trig c0 s0) (h1 : Trig c1 s1) (hc : ooc1 * c1 = 1) (u0 u1 u2 : K) :
     Gimbal.fitU c0 s0 s1 ooc1 (Hmul (Gimbal.H c0 c1 s0 s1) [u0, u1, u2]) = [u0, u1, u2] := by
@@ -221,7 +225,7 @@ theorem Bushing.speeds_meaning {c0 c1 c2 s0 s1 s2 : K} (h0 : Trig c0 s0) (h1 : T
   refine ⟨?_, hv⟩
   rw [hv]
   refine ⟨?_, ?_⟩
-  · simp only [docR_jet h0 h1, docRJet_re]
+  · have t := docR_turns (c2 := c2) (s2 := s2) h0 h1 u; unfold Turns at t; simp only [t, docRJet_re]
   · obtain ⟨a, b, d⟩ := v; mob_unfold
 
 /-! ## Ball / Free -/
@@ -249,8 +253,13 @@ theorem Ball.speeds_meaning_quat (q : Q4 K) (r : K) (w : V3 K) :
     IsRigidVel (Ball.docXq (Q4.var q (quat_N q w)) (Jet.invSqrtL (Q4.normSq (Q4.var q (quat_N q w))) r))
       (Hmul Ball.H [w.x, w.y, w.z]) ∧
     Hmul Ball.H [w.x, w.y, w.z] = ⟨w, V3.zero⟩ := by
-  obtain ⟨a, b, c, d⟩ := q; obtain ⟨x, y, z⟩ := w
-  simp only [IsRigidVel, Ball.docXq, Ball.docRq, Ball.H, quat_N]; mob_unfold; ring_all
+  have hv : Hmul Ball.H [w.x, w.y, w.z] = ⟨w, V3.zero⟩ := by
+    obtain ⟨x, y, z⟩ := w; simp only [Ball.H]; mob_unfold; ring_all
+  refine ⟨?_, hv⟩
+  rw [hv]
+  simp only [IsRigidVel, Ball.docXq, Ball.docRq, smul_var_quat_N, docRq_cols_jet, rotQuat_jet, rotQuat_var_re]
+  refine ⟨trivial, ?_⟩
+  mob_unfold
 
 /-- `u = ω_FM` expressed in F (Euler mode, `q̇ = N_P(q) ω`, away from the singularity `cos q₁ = 0`) -/
 theorem Ball.speeds_meaning_euler {c0 c1 c2 s0 s1 s2 ooc1 : K} (h0 : Trig c0 s0) (h1 : Trig c1 s1) (hc : ooc1 * c1 = 1)
@@ -271,7 +280,7 @@ theorem Ball.speeds_meaning_euler {c0 c1 c2 s0 s1 s2 ooc1 : K} (h0 : Trig c0 s0)
   refine ⟨?_, hv⟩
   rw [hv]
   refine ⟨?_, ?_⟩
-  · simp only [docR_jet h0 h1, docRJet_re, hN]
+  · have t := docR_turns (c2 := c2) (s2 := s2) h0 h1 (bodyXYZ_N_P c0 s0 s1 ooc1 w); unfold Turns at t; simp only [t, docRJet_re, hN]
   · mob_unfold
 theorem Ball.fitU_roundtrip (u0 u1 u2 : K) : Ball.fitU (Hmul Ball.H [u0, u1, u2]) = [u0, u1, u2] := by
   simp only [Ball.fitU, Ball.H]; mob_unfold; ring_all
@@ -289,8 +298,15 @@ theorem Free.speeds_meaning_quat (q : Q4 K) (r : K) (p w v : V3 K) :
     IsRigidVel (Free.docXq (Q4.var q (quat_N q w)) (Jet.invSqrtL (Q4.normSq (Q4.var q (quat_N q w))) r) (V3.var p v))
       (Hmul Free.H [w.x, w.y, w.z, v.x, v.y, v.z]) ∧
     Hmul Free.H [w.x, w.y, w.z, v.x, v.y, v.z] = ⟨w, v⟩ := by
-  obtain ⟨a, b, c, d⟩ := q; obtain ⟨x, y, z⟩ := w; obtain ⟨vx, vy, vz⟩ := v; obtain ⟨px, py, pz⟩ := p
-  simp only [IsRigidVel, Free.docXq, Ball.docXq, Ball.docRq, Free.H, Ball.H, quat_N]; mob_unfold; ring_all
+  have hv : Hmul Free.H [w.x, w.y, w.z, v.x, v.y, v.z] = ⟨w, v⟩ := by
+    obtain ⟨x, y, z⟩ := w; obtain ⟨vx, vy, vz⟩ := v; simp only [Free.H, Ball.H]; mob_unfold; ring_all
+  refine ⟨?_, hv⟩
+  rw [hv]
+  have hb := (Ball.speeds_meaning_quat q r w).1.translate p v
+  rw [(Ball.speeds_meaning_quat q r w).2] at hb
+  have e : V3.add v (V3.zero : V3 K) = v := by obtain ⟨vx, vy, vz⟩ := v; mob_unfold; ring_all
+  simp only [e] at hb
+  exact hb
 theorem Free.fitU_roundtrip (u0 u1 u2 u3 u4 u5 : K) :
     Free.fitU (Hmul Free.H [u0, u1, u2, u3, u4, u5]) = [u0, u1, u2, u3, u4, u5] := by
   simp only [Free.fitU, Free.H, Ball.H]; mob_unfold; ring_all
@@ -332,10 +348,23 @@ theorem SphericalCoords.X_isRot (P : SphericalCoords.Par K) {c0 s0 c1 s1 : K} (q
     (h0 : Trig c0 s0) (h1 : Trig c1 s1) : IsRot (SphericalCoords.X P c0 s0 c1 s1 q2).R := by
   simp only [SphericalCoords.X, SphericalCoords.R, rotZY_eq_doc]
   exact (rotAxis_ez_isRot (SphericalCoords.shift_trig ha h0 ha0)).mul (rotAxis_ey_isRot (SphericalCoords.shift_trig hz h1 hz0))
+theorem SphericalCoords.shiftC_jet {sg : K} (hs : sg * sg = 1) (c s co so u : K) :
+    SphericalCoords.shiftC (Jet.const sg) (Jet.cosL c s u) (Jet.sinL c s u) (Jet.const co) (Jet.const so)
+      = Jet.cosL (SphericalCoords.shiftC sg c s co so) (SphericalCoords.shiftS sg c s co so) (sg * u) := by
+  apply Jet.ext' <;> simp only [SphericalCoords.shiftC, SphericalCoords.shiftS] <;> jet_simp
+  · ring1
+  · linear_combination (-(s * co * u)) * hs
+theorem SphericalCoords.shiftS_jet {sg : K} (hs : sg * sg = 1) (c s co so u : K) :
+    SphericalCoords.shiftS (Jet.const sg) (Jet.cosL c s u) (Jet.sinL c s u) (Jet.const co) (Jet.const so)
+      = Jet.sinL (SphericalCoords.shiftC sg c s co so) (SphericalCoords.shiftS sg c s co so) (sg * u) := by
+  apply Jet.ext' <;> simp only [SphericalCoords.shiftC, SphericalCoords.shiftS] <;> jet_simp
+  · ring1
+  · linear_combination (-(s * so * u)) * hs
+
 /-- `u = q̇`: signed azimuth rate about Fz, signed zenith rate about the current My, signed radial rate -/
 theorem SphericalCoords.speeds_meaning (P : SphericalCoords.Par K) {c0 s0 c1 s1 : K} (q2 u0 u1 u2 : K)
-    (ha : P.sgAz * P.sgAz = 1) (hz : P.sgZe * P.sgZe = 1) (ha0 : Trig P.caz0 P.saz0) (hz0 : Trig P.cze0 P.sze0)
-    (h0 : Trig c0 s0) (h1 : Trig c1 s1) :
+    (ha : P.sgAz * P.sgAz = 1) (hz : P.sgZe * P.sgZe = 1) (ha0 : Trig P.caz0 P.saz0)
+    (h0 : Trig c0 s0) :
     let PJ : SphericalCoords.Par (Jet K) :=
       ⟨Jet.const P.caz0, Jet.const P.saz0, Jet.const P.cze0, Jet.const P.sze0, Jet.const P.sgAz, Jet.const P.sgZe,
        Jet.const P.sgT, P.axisX⟩
@@ -343,16 +372,37 @@ theorem SphericalCoords.speeds_meaning (P : SphericalCoords.Par K) {c0 s0 c1 s1 
                   (Jet.var q2 u2))
       (Hmul (SphericalCoords.H P (SphericalCoords.X P c0 s0 c1 s1 q2)) [u0, u1, u2]) := by
   obtain ⟨ca, sa, cz, sz, ga, gz, gt, ax⟩ := P
-  have e0 := h0.sq; have e1 := h1.sq
-  have ea := Trig.sq ha0; have ez := Trig.sq hz0
-  have ga2 : ga ^ 2 = 1 := by linear_combination ha
-  have gz2 : gz ^ 2 = 1 := by linear_combination hz
-  simp only at ea ez ga2 gz2
-  cases ax <;>
-  simp only [IsRigidVel, SphericalCoords.docX, SphericalCoords.H, SphericalCoords.X, SphericalCoords.R,
-    SphericalCoords.axisOf, SphericalCoords.shiftC, SphericalCoords.shiftS, rotAxis, rotZY, if_true,
-    Bool.false_eq_true, if_false] <;> mob_unfold <;> (repeat' apply And.intro) <;>
-  trig_ring [e0, e1, ea, ez, ga2, gz2]
+  simp only at ha hz ha0
+  -- the azimuth / zenith trig pairs and their rates
+  set A := SphericalCoords.shiftC ga c0 s0 ca sa with hA
+  set B := SphericalCoords.shiftS ga c0 s0 ca sa with hB
+  set C := SphericalCoords.shiftC gz c1 s1 cz sz with hC
+  set D := SphericalCoords.shiftS gz c1 s1 cz sz with hD
+  have tAB : Trig A B := SphericalCoords.shift_trig ha h0 ha0
+  have tR := (rotAxis_ez_turns A B (ga * u0)).mul (rotAxis_ey_turns C D (gz * u1))
+    (by rw [rotAxis_ez_re]; exact rotAxis_ez_isRot tAB)
+  have reR : (M33.mul (rotAxis V3.ez (Jet.cosL A B (ga * u0)) (Jet.sinL A B (ga * u0)))
+      (rotAxis V3.ey (Jet.cosL C D (gz * u1)) (Jet.sinL C D (gz * u1)))).re = rotZY A B C D := by
+    rw [M33.mul_re, rotAxis_ez_re, rotAxis_ey_re, rotZY_eq_doc]
+  intro PJ
+  simp only [PJ, SphericalCoords.docX, SphericalCoords.shiftC_jet ha, SphericalCoords.shiftS_jet ha,
+    SphericalCoords.shiftC_jet hz, SphericalCoords.shiftS_jet hz, ← hA, ← hB, ← hC, ← hD]
+  simp only [IsRigidVel, SphericalCoords.H, SphericalCoords.X, SphericalCoords.R, SphericalCoords.axisOf, ← hA, ← hB, ← hC, ← hD]
+  unfold Turns at tR
+  rw [rotAxis_ez_re] at tR
+  cases ax
+  · simp only [Bool.false_eq_true, if_false]
+    have hp := (show Turns _ _ from tR).smul_mulVec_eps (Jet.const gt * Jet.var q2 u2) V3.ez
+    refine ⟨?_, ?_⟩
+    · rw [tR, reR]; simp only [rotAxis_ez, rotZ, rotZY]; mob_unfold; ring_all
+    · have ez : (V3.ez : V3 (Jet K)) = V3.const V3.ez := rfl
+      rw [ez, hp, reR]; simp only [rotAxis_ez, rotZ, rotZY]; mob_unfold; ring_all
+  · simp only [if_true]
+    have hp := (show Turns _ _ from tR).smul_mulVec_eps (Jet.const gt * Jet.var q2 u2) V3.ex
+    refine ⟨?_, ?_⟩
+    · rw [tR, reR]; simp only [rotAxis_ez, rotZ, rotZY]; mob_unfold; ring_all
+    · have ex : (V3.ex : V3 (Jet K)) = V3.const V3.ex := rfl
+      rw [ex, hp, reR]; simp only [rotAxis_ez, rotZ, rotZY]; mob_unfold; ring_all
 
 /-! ## CantileverFreeBeam -/
 theorem Cantilever.code_eq_doc (L defl disp c0 c1 c2 s0 s1 s2 q0 q1 : K) :
@@ -376,7 +426,7 @@ theorem Cantilever.speeds_meaning {c0 c1 c2 s0 s1 s2 : K} (h0 : Trig c0 s0) (h1 
   have hw : (Hmul (Cantilever.H defl disp c0 c1 s0 s1 q0 q1) [u.x, u.y, u.z]).w = bodyXYZ_NInv_P c0 s0 c1 s1 u := by
     simp only [Cantilever.H, bodyXYZ_NInv_P]; mob_unfold; ring_all
   refine ⟨?_, ?_⟩
-  · simp only [docR_jet h0 h1, docRJet_re, hw]
+  · have t := docR_turns (c2 := c2) (s2 := s2) h0 h1 u; unfold Turns at t; simp only [t, docRJet_re, hw]
   · simp only [Cantilever.docX, Cantilever.H]; mob_unfold; ring_all
 
 /-! ## LineOrientation / FreeLine -/
